@@ -7,23 +7,29 @@ PROP = dict(
     namespaces=["Comdex.C03"],
     required_theorems=["Comdex.C03.create_accepted_ratio", "Comdex.C03.draw_accepted_ratio", "Comdex.C03.withdraw_accepted_ratio",
                        "Comdex.C03.depositAndDraw_accepted_ratio", "Comdex.C03.floor_kept", "Comdex.C03.ceiling_kept",
-                       "Comdex.C03.inactive_price_rejects"],
+                       "Comdex.C03.inactive_price_rejects",
+                       "Comdex.C03.ratioOk_exact", "Comdex.C03.ratioOk_exact_scales", "Comdex.C03.ratioOk_exact_tight",
+                       "Comdex.C03.create_accepted_ratio_exact", "Comdex.C03.draw_accepted_ratio_exact",
+                       "Comdex.C03.withdraw_accepted_ratio_exact"],
     harness_tests=["TestC01"],
-    monitors=["ratio_ok", "floor_kept", "ceiling_kept", "price_fail_closed"],
+    monitors=["ratio_ok", "ratio_exact", "floor_kept", "ceiling_kept", "price_fail_closed"],
     trusted_base=[KERNEL_TB, HARNESS_TB, DEC_TB, VAULT_TB],
-    assumptions=VAULT_ASSUME + ["the collateral ratio clause is proved for the ratio as the chain computes it (three 18-digit fixed-point roundings); the distance to the exact rational is not bounded by a theorem"],
+    assumptions=VAULT_ASSUME + ["the exact-rational form of the ratio clause carries the rounding slack of the chain's arithmetic explicitly: minCr - 1/2 * 10^-18 for decimal scales dividing 10^18 (only the final division rounds; the slack is attained, ratioOk_exact_tight), half a unit per value computation more for other scales"],
     rule="same generated histories as C01; amounts are boundary-directed: the harness solves amountIn for ratio == minCr and emits it and its "
          "neighbours (create, withdraw), amounts at debt floor +-1 and at the remaining ceiling +-1; prices are moved and deactivated between messages",
 )
 
 META = dict(
-    technique="Lean 4 proof of the accept/reject decision (computed ratio >= minCr), inductive floor/ceiling invariants + differential correspondence at boundary amounts",
+    technique="Lean 4 proof of the accept/reject decision (computed ratio >= minCr) and of its exact-rational content, inductive floor/ceiling invariants + differential correspondence at boundary amounts",
     design_ref="DESIGN.md §5 C03",
     text="Kernel-checked: an accepted create / draw / withdraw / deposit-and-draw outside shutdown implies the collateral ratio as computed by "
          "the chain exists and is >= minCr (against principal + interest + closing fee for draw/withdraw); after every history every open "
          "vault's principal >= its product's debt floor and every product's outstanding principal <= its debt ceiling; with the required "
          "price inactive these messages are rejected. Tied by the C01 correspondence run with boundary-directed amounts (ratio exactly minCr +- 1 unit), "
          "and the same decisions are re-evaluated by the Lean driver on the real post-state.",
-    note="Partial: the exact-rational form of the ratio clause (rounding slack of three Dec operations) is not proved. Trusted: Lean kernel, "
+    note="The ratio clause is proved both for the ratio as the chain computes it and multiplied out over the integers for the exact products "
+         "(ratioOk_exact: explicit slack of the three roundings; ratioOk_exact_scales: exact ratio >= minCr - 1/2 * 10^-18 for decimal scales 10^k, k <= 18; "
+         "ratioOk_exact_tight: that half unit is attained, so the literal clause 'at least minCr' is false of the code by < 10^-18 — the monitor ratio_exact "
+         "checks the proved bound on the real vaults). Trusted: Lean kernel, "
          "Dec model (differentially tested), model faithfulness via correspondence.",
 )
